@@ -301,12 +301,13 @@ impl<TStorage: ?Sized + ReadableStorageTraits + ListableStorageTraits> Group<TSt
         self.children(recursive)?
             .into_iter()
             .filter_map(|node| {
-                let name = node.name();
+                // The child is at its own path (its name alone is not a node path)
+                let path = node.path().clone();
                 let metadata: NodeMetadata = node.into();
                 match metadata {
                     NodeMetadata::Group(metadata) => Some(Group::new_with_metadata(
                         self.storage.clone(),
-                        name.as_str(),
+                        path.as_str(),
                         metadata,
                     )),
                     NodeMetadata::Array(_) => None,
@@ -323,12 +324,13 @@ impl<TStorage: ?Sized + ReadableStorageTraits + ListableStorageTraits> Group<TSt
         self.children(recursive)?
             .into_iter()
             .filter_map(|node| {
-                let name = node.name();
+                // The child is at its own path (its name alone is not a node path)
+                let path = node.path().clone();
                 let metadata: NodeMetadata = node.into();
                 match metadata {
                     NodeMetadata::Array(metadata) => Some(Array::new_with_metadata(
                         self.storage.clone(),
-                        name.as_str(),
+                        path.as_str(),
                         metadata.clone(),
                     )),
                     NodeMetadata::Group(_) => None,
@@ -461,12 +463,13 @@ impl<TStorage: ?Sized + AsyncReadableStorageTraits + AsyncListableStorageTraits>
             .await?
             .into_iter()
             .filter_map(|node| {
-                let name = node.name();
+                // The child is at its own path (its name alone is not a node path)
+                let path = node.path().clone();
                 let metadata: NodeMetadata = node.into();
                 match metadata {
                     NodeMetadata::Group(metadata) => Some(Group::new_with_metadata(
                         self.storage.clone(),
-                        name.as_str(),
+                        path.as_str(),
                         metadata,
                     )),
                     NodeMetadata::Array(_) => None,
@@ -487,12 +490,13 @@ impl<TStorage: ?Sized + AsyncReadableStorageTraits + AsyncListableStorageTraits>
             .await?
             .into_iter()
             .filter_map(|node| {
-                let name = node.name();
+                // The child is at its own path (its name alone is not a node path)
+                let path = node.path().clone();
                 let metadata: NodeMetadata = node.into();
                 match metadata {
                     NodeMetadata::Array(metadata) => Some(Array::new_with_metadata(
                         self.storage.clone(),
-                        name.as_str(),
+                        path.as_str(),
                         metadata.clone(),
                     )),
                     NodeMetadata::Group(_) => None,
